@@ -1,3 +1,269 @@
 package main
 
-func extractRest10(l *loaded, genDir, jsonDir string) error { return nil }
+import (
+	"bytes"
+	"fmt"
+	"go/ast"
+	"go/printer"
+	"go/token"
+	"path/filepath"
+	"strings"
+)
+
+// CollectorCase: one case of a collector's type switch.
+//   Records : each record is the list of argument paths (field chains from the case variable; ranging over a
+//             slice does not add a path element) of `m[<chain>] = true` / `addTable(<chain>)` / `addColumn(<c>, <c>)`
+//   Guards  : source text of the innermost `if` around each record ("" when unguarded)
+//   Descend : chains handed to collectFromExpression
+//   NodeRec : chains handed to collectFromNode (explicit recursion into a child node)
+type CollectorCase struct {
+	Type    string       `json:"type"`
+	Records [][][]string `json:"records"`
+	Guards  []string     `json:"guards"`
+	Descend [][]string   `json:"descend"`
+	NodeRec [][]string   `json:"node_rec"`
+}
+
+type CollectorFacts struct {
+	Name     string          `json:"name"`
+	Node     []CollectorCase `json:"node"`     // collectFromNode
+	Expr     []CollectorCase `json:"expr"`     // collectFromExpression
+	Recurses bool            `json:"recurses"` // collectFromNode ends with `for _, c := range node.Children() { x.collectFromNode(c) }`
+}
+
+func extractCollectors(l *loaded) ([]CollectorFacts, error) {
+	p := l.pkgs["pkg/gosqlx"]
+	if p == nil {
+		return nil, fmt.Errorf("pkg/gosqlx not loaded")
+	}
+	exprStr := func(e ast.Expr) string {
+		var b bytes.Buffer
+		_ = printer.Fprint(&b, token.NewFileSet(), e)
+		return b.String()
+	}
+	names := []string{"tableCollector", "qualifiedTableCollector", "columnCollector", "qualifiedColumnCollector", "functionCollector"}
+	facts := map[string]*CollectorFacts{}
+	for _, n := range names {
+		facts[n] = &CollectorFacts{Name: n}
+	}
+	for _, f := range p.Syntax {
+		for _, d := range f.Decls {
+			fd, ok := d.(*ast.FuncDecl)
+			if !ok || fd.Recv == nil || fd.Body == nil {
+				continue
+			}
+			if fd.Name.Name != "collectFromNode" && fd.Name.Name != "collectFromExpression" {
+				continue
+			}
+			recvT := ""
+			if se, ok := fd.Recv.List[0].Type.(*ast.StarExpr); ok {
+				if id, ok := se.X.(*ast.Ident); ok {
+					recvT = id.Name
+				}
+			}
+			cf := facts[recvT]
+			if cf == nil {
+				continue
+			}
+			recvName := fd.Recv.List[0].Names[0].Name
+			var cases []CollectorCase
+			for _, st := range fd.Body.List {
+				ts, ok := st.(*ast.TypeSwitchStmt)
+				if !ok {
+					continue
+				}
+				caseVar := ""
+				if as, ok := ts.Assign.(*ast.AssignStmt); ok {
+					caseVar = as.Lhs[0].(*ast.Ident).Name
+				}
+				for _, c := range ts.Body.List {
+					cc := c.(*ast.CaseClause)
+					for _, t := range cc.List {
+						tn := ""
+						if se, ok := t.(*ast.StarExpr); ok {
+							if sel, ok := se.X.(*ast.SelectorExpr); ok {
+								tn = sel.Sel.Name
+							}
+						}
+						if tn == "" {
+							continue
+						}
+						cs := CollectorCase{Type: tn}
+						env := map[string][]string{caseVar: {}}
+						var chain func(e ast.Expr) ([]string, bool)
+						chain = func(e ast.Expr) ([]string, bool) {
+							switch x := e.(type) {
+							case *ast.Ident:
+								pth, ok := env[x.Name]
+								return append([]string{}, pth...), ok
+							case *ast.SelectorExpr:
+								base, ok := chain(x.X)
+								if !ok {
+									return nil, false
+								}
+								return append(base, x.Sel.Name), true
+							case *ast.UnaryExpr:
+								if x.Op == token.AND {
+									return chain(x.X)
+								}
+							case *ast.ParenExpr:
+								return chain(x.X)
+							}
+							return nil, false
+						}
+						var walk func(n ast.Node, guard string)
+						walk = func(n ast.Node, guard string) {
+							switch s := n.(type) {
+							case *ast.BlockStmt:
+								for _, x := range s.List {
+									walk(x, guard)
+								}
+							case *ast.IfStmt:
+								walk(s.Body, exprStr(s.Cond))
+								if s.Else != nil {
+									walk(s.Else, "else:"+exprStr(s.Cond))
+								}
+							case *ast.RangeStmt:
+								if pth, ok := chain(s.X); ok {
+									if id, ok := s.Value.(*ast.Ident); ok {
+										env[id.Name] = pth
+									}
+								}
+								walk(s.Body, guard)
+							case *ast.AssignStmt:
+								// local copy `x := x` keeps the binding; map store records
+								if len(s.Lhs) == 1 && len(s.Rhs) == 1 {
+									if ix, ok := s.Lhs[0].(*ast.IndexExpr); ok {
+										if sel, ok := ix.X.(*ast.SelectorExpr); ok {
+											if id, ok := sel.X.(*ast.Ident); ok && id.Name == recvName {
+												if pth, ok := chain(ix.Index); ok {
+													cs.Records = append(cs.Records, [][]string{pth})
+													cs.Guards = append(cs.Guards, guard)
+												} else {
+													cs.Records = append(cs.Records, [][]string{{"?" + exprStr(ix.Index)}})
+													cs.Guards = append(cs.Guards, guard)
+												}
+											}
+										}
+									}
+									if lid, ok := s.Lhs[0].(*ast.Ident); ok {
+										if pth, ok := chain(s.Rhs[0]); ok && s.Tok == token.DEFINE {
+											env[lid.Name] = pth
+										}
+									}
+								}
+							case *ast.ExprStmt:
+								ce, ok := s.X.(*ast.CallExpr)
+								if !ok {
+									return
+								}
+								sel, ok := ce.Fun.(*ast.SelectorExpr)
+								if !ok {
+									return
+								}
+								if id, ok := sel.X.(*ast.Ident); !ok || id.Name != recvName {
+									return
+								}
+								var args [][]string
+								for _, a := range ce.Args {
+									if pth, ok := chain(a); ok {
+										args = append(args, pth)
+									} else {
+										args = append(args, []string{"?" + exprStr(a)})
+									}
+								}
+								switch sel.Sel.Name {
+								case "collectFromExpression":
+									cs.Descend = append(cs.Descend, args[0])
+								case "collectFromNode":
+									cs.NodeRec = append(cs.NodeRec, args[0])
+								default: // addTable / addColumn
+									cs.Records = append(cs.Records, args)
+									cs.Guards = append(cs.Guards, guard)
+								}
+							}
+						}
+						for _, b := range cc.Body {
+							walk(b, "")
+						}
+						cases = append(cases, cs)
+					}
+				}
+			}
+			if fd.Name.Name == "collectFromNode" {
+				cf.Node = cases
+				// last statement: range over node.Children() calling collectFromNode on each
+				last := fd.Body.List[len(fd.Body.List)-1]
+				if rs, ok := last.(*ast.RangeStmt); ok {
+					if ce, ok := rs.X.(*ast.CallExpr); ok {
+						if sel, ok := ce.Fun.(*ast.SelectorExpr); ok && sel.Sel.Name == "Children" && len(rs.Body.List) == 1 {
+							if es, ok := rs.Body.List[0].(*ast.ExprStmt); ok {
+								if c2, ok := es.X.(*ast.CallExpr); ok {
+									if s2, ok := c2.Fun.(*ast.SelectorExpr); ok && s2.Sel.Name == "collectFromNode" {
+										cf.Recurses = true
+									}
+								}
+							}
+						}
+					}
+				}
+			} else {
+				cf.Expr = cases
+			}
+		}
+	}
+	var out []CollectorFacts
+	for _, n := range names {
+		out = append(out, *facts[n])
+	}
+	return out, nil
+}
+
+func leanPath(p []string) string { return leanStrList(p) }
+
+func leanPaths(ps [][]string) string {
+	var xs []string
+	for _, p := range ps {
+		xs = append(xs, leanPath(p))
+	}
+	return "[" + strings.Join(xs, ", ") + "]"
+}
+
+func extractRest10(l *loaded, genDir, jsonDir string) error {
+	facts, err := extractCollectors(l)
+	if err != nil {
+		return err
+	}
+	if err := writeJSON(jsonDir+"/collectors.json", facts); err != nil {
+		return err
+	}
+	var b strings.Builder
+	b.WriteString(genHeader)
+	b.WriteString("namespace GoSQLXModel.Gen.Extract\n\n")
+	b.WriteString("/-- one case of a collector's type switch: (node type, records (each: argument paths), guards, collectFromExpression starts) -/\n")
+	b.WriteString("abbrev Case := String × List (List (List String)) × List String × List (List String)\n\n")
+	emit := func(name string, cs []CollectorCase) {
+		fmt.Fprintf(&b, "def %s : List Case := [", name)
+		for i, c := range cs {
+			if i > 0 {
+				b.WriteString(",")
+			}
+			var recs []string
+			for _, r := range c.Records {
+				recs = append(recs, leanPaths(r))
+			}
+			fmt.Fprintf(&b, "\n  (%s, [%s], %s, %s)", leanStr(c.Type), strings.Join(recs, ", "), leanStrList(c.Guards), leanPaths(c.Descend))
+		}
+		b.WriteString("]\n")
+	}
+	for _, f := range facts {
+		emit(f.Name+"_node", f.Node)
+		emit(f.Name+"_expr", f.Expr)
+		fmt.Fprintf(&b, "def %s_recurses : Bool := %v\n\n", f.Name, f.Recurses)
+	}
+	b.WriteString("end GoSQLXModel.Gen.Extract\n")
+	if _, err := writeIfChanged(filepath.Join(genDir, "ExtractTables.lean"), []byte(b.String())); err != nil {
+		return err
+	}
+	return extractRest11(l, genDir, jsonDir)
+}
